@@ -1075,7 +1075,7 @@ Section Cursor.
         let ekt := if cmp0 then endt (length below) else (if rtl then kt_min else kt_max) in
         let es := ents_dir l in
         let n := length es in
-        let no_cb_at_end := ep_eqb ep EP_INCL && kt_eq last ekt in
+        let no_cb_at_end := (negb true || cmp0) && ep_eqb ep EP_INCL && kt_eq last ekt in
         if Nat.leb n (ie_rank top) then
           let cbs' := if no_cb_at_end then cbs else cbs ++ [(lf_id l, lf_ver l)] in
           match neighbour leaves (lf_id l) None rtl with
